@@ -5,8 +5,8 @@ From SyModel Require Import Engine.
 From SyProofs Require Import Engine_proofs.
 Import ListNotations.
 
-Theorem C08_dry_run_changes_nothing : forall refuse c now U src dst,
-  c_dry_run c = true -> r_fs (run refuse c now U src dst) = dst.
+Theorem C08_dry_run_changes_nothing : forall refuse ds c now U src dst,
+  c_dry_run c = true -> r_fs (run refuse ds c now U src dst) = dst.
 Proof. exact dry_run_changes_nothing. Qed.
 Print Assumptions C08_dry_run_changes_nothing.
 
@@ -14,8 +14,8 @@ Definition with_dry (c : cfg) (b : bool) : cfg :=
   mk_cfg (c_delete c) (c_force_delete c) (c_threshold c) b (c_ignore_times c) (c_size_only c) (c_checksum c) (c_big c) (c_max_errors c).
 
 (* the plan (actions and paths, deletions included, and the refusal decision) does not depend on --dry-run *)
-Theorem C08_plan_independent_of_dry_run : forall c dst e,
-  plan_entry (with_dry c true) dst e = plan_entry (with_dry c false) dst e.
+Theorem C08_plan_independent_of_dry_run : forall c ds dst e,
+  plan_entry (with_dry c true) ds dst e = plan_entry (with_dry c false) ds dst e.
 Proof. intros. reflexivity. Qed.
 Print Assumptions C08_plan_independent_of_dry_run.
 
@@ -30,16 +30,16 @@ Proof.
     rewrite E1, E2. cbn [rev map]. rewrite <- app_assoc. split; reflexivity.
 Qed.
 
-Theorem C08_dry_run_reports_the_plan : forall refuse c now U src dst,
-  c_dry_run c = true -> r_refused (run refuse c now U src dst) = false ->
-  r_events (run refuse c now U src dst) =
+Theorem C08_dry_run_reports_the_plan : forall refuse ds c now U src dst,
+  c_dry_run c = true -> r_refused (run refuse ds c now U src dst) = false ->
+  r_events (run refuse ds c now U src dst) =
     map (fun t => (t_action t, t_path t))
-        (map (plan_entry c dst) src ++ (if c_delete c then plan_deletions src (filter (fun p => match dst p with Some _ => true | None => false end) U) else []))
-  /\ r_errors (run refuse c now U src dst) = [].
+        (map (plan_entry c ds dst) src ++ (if c_delete c then plan_deletions src (filter (fun p => match dst p with Some _ => true | None => false end) U) else []))
+  /\ r_errors (run refuse ds c now U src dst) = [].
 Proof.
-  intros refuse c now U src dst Hdry Href. unfold run in *. cbv zeta in *.
+  intros refuse ds c now U src dst Hdry Href. unfold run in *. cbv zeta in *.
   match type of Href with context [if ?b then _ else _] => destruct b end; [cbn in Href; discriminate|].
-  destruct (exec_all_dry_events c now Hdry (map (plan_entry c dst) src ++ (if c_delete c then plan_deletions src (filter (fun p => match dst p with Some _ => true | None => false end) U) else [])) dst [] []) as [E1 E2].
+  destruct (exec_all_dry_events c now Hdry (map (plan_entry c ds dst) src ++ (if c_delete c then plan_deletions src (filter (fun p => match dst p with Some _ => true | None => false end) U) else [])) dst [] []) as [E1 E2].
   rewrite E1, E2. split; reflexivity.
 Qed.
 Print Assumptions C08_dry_run_reports_the_plan.
